@@ -473,3 +473,176 @@ Proof.
   - unfold ids. rewrite (ev_key_id _ _ Hk). apply in_map. exact Hx.
   - unfold ids. apply in_map. exact Hin.
 Qed.
+
+(* ------------------------------------------------------------------ *)
+(** * Handler bodies *)
+
+(* t differs from s only in run state, notification / outcome / observation logs and the flag *)
+Definition LogOnly (s t : sim) : Prop :=
+  core_eq s t /\ clock t = clock s /\ strat t = strat s /\ bound t = bound s /\ incl t = incl s
+  /\ ps t = ps s /\ worker t = worker s.
+
+Lemma LogOnly_refl s : LogOnly s s.
+Proof. unfold LogOnly; repeat split; auto using core_eq_refl. Qed.
+
+Lemma LogOnly_Frame s t : LogOnly s t -> Frame s t.
+Proof. intros (?&?&?&?&?&?&?). apply Frame_core; auto. Qed.
+
+Lemma LogOnly_Inv s t : LogOnly s t -> Inv s -> Inv t.
+Proof. intros (C&Hc&_). apply Inv_core; auto. Qed.
+
+Lemma LogOnly_Acct s t : LogOnly s t -> Acct s -> Acct t.
+Proof. intros (C&_). apply Acct_core; auto. Qed.
+
+Ltac logonly := unfold LogOnly, core_eq; ssimpl; auto 20.
+
+Lemma inner_cmd_logonly md s c : LogOnly s (inner_cmd md s c).
+Proof.
+  unfold inner_cmd. destruct md; try (logonly; fail);
+  destruct c; destruct (running s); logonly.
+Qed.
+
+(* what every piece of handler code guarantees *)
+Record HStep (s s' : sim) : Prop := mkHStep {
+  hs_frame : Frame s s';
+  hs_inv : Inv s -> Inv s';
+  hs_acct : Inv s -> Acct s -> Acct s'
+}.
+
+Lemma HStep_refl s : HStep s s.
+Proof. constructor; auto using Frame_refl. Qed.
+
+Lemma HStep_trans a b c : HStep a b -> HStep b c -> HStep a c.
+Proof.
+  intros [F1 I1 A1] [F2 I2 A2]. constructor; eauto using Frame_trans.
+Qed.
+
+Lemma HStep_logonly s t : LogOnly s t -> HStep s t.
+Proof.
+  intros L. constructor; intros; eauto using LogOnly_Frame, LogOnly_Inv, LogOnly_Acct.
+Qed.
+
+Lemma exec_action_hstep md s a : HStep s (fst (exec_action md s a)).
+Proof.
+  destruct a; cbn [exec_action fst].
+  - constructor; intros; auto using do_sched_frame, do_sched_inv, do_sched_acct.
+  - constructor; intros; auto using do_cancel_frame, do_cancel_inv, do_cancel_acct.
+  - apply HStep_refl.
+  - apply HStep_logonly, inner_cmd_logonly.
+  - apply HStep_logonly. logonly.
+Qed.
+
+Lemma exec_actions_hstep md acts : forall s, HStep s (fst (exec_actions md s acts)).
+Proof.
+  induction acts as [|a r IH]; intros s; cbn [exec_actions].
+  - apply HStep_refl.
+  - pose proof (exec_action_hstep md s a) as H1.
+    destruct (exec_action md s a) as [s1 failed]. cbn [fst] in H1.
+    destruct failed; cbn [fst]; [exact H1|].
+    eapply HStep_trans; [exact H1|apply IH].
+Qed.
+
+(** While a handler runs the clock stays what it was set to. *)
+Lemma handler_clock_const md acts s : clock (fst (exec_actions md s acts)) = clock s.
+Proof. apply (fr_clock _ _ (hs_frame _ _ (exec_actions_hstep md acts s))). Qed.
+
+(* ------------------------------------------------------------------ *)
+(** * Taking the first pending event *)
+
+(* the state right after the pop: e logged with the clock it runs at *)
+Definition popped (s : sim) (e : ev) (r : list ev) : sim :=
+  set_trace ((e, ev_time e) :: trace s) (set_clock (ev_time e) (set_pend r s)).
+
+Lemma popped_live s e r : pend s = e :: r -> Permutation (live s) (live (popped s e r)).
+Proof.
+  intros Hp. unfold live, executed, popped; ssimpl. rewrite Hp. cbn [map fst app].
+  apply Permutation_middle.
+Qed.
+
+Lemma popped_inv s e r : Inv s -> pend s = e :: r -> Inv (popped s e r).
+Proof.
+  intros [H1 H2 H3 H4 H5 H6] Hp.
+  pose proof (Permutation_map ev_id (popped_live s e r Hp)) as P. fold (ids (live s)) in P.
+  rewrite Hp in H1, H2. inversion H1 as [|? ? Hr He]; subst.
+  constructor.
+  - unfold popped; ssimpl. auto.
+  - unfold popped; ssimpl. eapply Forall_impl; [|exact He]. intros x Hx. apply ev_ltb_time; auto.
+  - eapply Permutation_Forall; [exact P|]. exact H3.
+  - unfold popped; ssimpl. auto.
+  - eapply Permutation_NoDup; [exact P|]. exact H5.
+  - unfold popped; ssimpl. constructor; auto.
+Qed.
+
+Lemma popped_acct s e r : pend s = e :: r -> Acct s -> Acct (popped s e r).
+Proof.
+  intros Hp HA x Hx. apply (Permutation_in _ (popped_live s e r Hp)). apply HA.
+  unfold popped in Hx; ssimpl. auto.
+Qed.
+
+(* exec_event on a state whose clock is already the event time *)
+Lemma exec_event_hstep md p s e :
+  HStep (set_trace ((e, clock s) :: trace s) s) (fst (exec_event md p s e)).
+Proof.
+  unfold exec_event. destruct (ev_h e).
+  - cbn [fst]. apply HStep_logonly. logonly.
+  - apply exec_actions_hstep.
+Qed.
+
+Definition time_ntf (e : ev) (s : sim) : sim :=
+  if ev_time e =? clock s then s else emit (NTime (ev_time e)) s.
+
+Lemma time_ntf_logonly e s : LogOnly s (time_ntf e s).
+Proof. unfold time_ntf. destruct (ev_time e =? clock s); logonly. Qed.
+
+(* what one execution of the loop body / of step guarantees, relative to [popped] *)
+Record Took (s : sim) (e : ev) (r : list ev) (s' : sim) : Prop := mkTook {
+  tk_frame : Frame (popped s e r) s';
+  tk_inv : Inv s -> Inv s';
+  tk_acct : Inv s -> Acct s -> Acct s'
+}.
+
+Lemma took_of_hstep s e r s0 s' :
+  pend s = e :: r -> LogOnly (popped s e r) s0 -> HStep s0 s' -> Took s e r s'.
+Proof.
+  intros Hp L [F I A]. constructor.
+  - eapply Frame_trans; [apply LogOnly_Frame; exact L|exact F].
+  - intros HI. apply I. eapply LogOnly_Inv; [exact L|]. apply popped_inv; auto.
+  - intros HI HA. apply A.
+    + eapply LogOnly_Inv; [exact L|]. apply popped_inv; auto.
+    + eapply LogOnly_Acct; [exact L|]. apply popped_acct; auto.
+Qed.
+
+Lemma take_event_took p s e r : pend s = e :: r -> Took s e r (take_event p s e r).
+Proof.
+  intros Hp. unfold take_event.
+  set (s2 := set_clock (ev_time e) (if ev_time e =? clock (set_pend r s) then set_pend r s
+                                    else emit (NTime (ev_time e)) (set_pend r s))).
+  pose proof (exec_event_hstep InRun p s2 e) as H.
+  destruct (exec_event InRun p s2 e) as [s3 failed]. cbn [fst] in H.
+  assert (L : LogOnly (popped s e r) (set_trace ((e, clock s2) :: trace s2) s2)).
+  { unfold s2, popped. destruct (ev_time e =? clock (set_pend r s)); logonly. }
+  assert (T : Took s e r s3) by (eapply took_of_hstep; eauto).
+  destruct failed; [destruct (strat s3)|]; auto.
+  destruct T as [F I A]. constructor.
+  - eapply Frame_trans; [exact F|]. apply LogOnly_Frame. logonly.
+  - intros HI. eapply LogOnly_Inv; [|apply I; exact HI]. logonly.
+  - intros HI HA. eapply LogOnly_Acct; [|apply A; auto]. logonly.
+Qed.
+
+Lemma step_event_took p s e r : pend s = e :: r -> Took s e r (step_event p s e r).
+Proof.
+  intros Hp. unfold step_event.
+  set (s2 := set_clock (ev_time e) (emit (NTime (ev_time e)) (set_pend r s))).
+  eapply took_of_hstep; [exact Hp| |apply (exec_event_hstep InStep p s2 e)].
+  unfold s2, popped. logonly.
+Qed.
+
+Lemma took_clock s e r s' : Took s e r s' -> clock s' = ev_time e.
+Proof. intros [F _ _]. rewrite (fr_clock _ _ F). reflexivity. Qed.
+
+Lemma took_trace s e r s' : Took s e r s' -> trace s' = (e, ev_time e) :: trace s.
+Proof. intros [F _ _]. rewrite (fr_trace _ _ F). reflexivity. Qed.
+
+Lemma took_bound s e r s' : Took s e r s' -> bound s' = bound s /\ incl s' = incl s /\ rep s' = rep s
+                                           /\ ps s' = ps s /\ strat s' = strat s /\ worker s' = worker s.
+Proof. intros [F _ _]. destruct F. unfold popped in *; ssimpl. auto 10. Qed.
